@@ -406,8 +406,8 @@ Example c04_nonvacuous_extract_forward :
                     (fun k v => match k with KU64 n => N.odd n | _ => false end) 5
                     (t_extract_new ex_built (Excluded (KU64 2)) (Included (KU64 19))) in
   let bt1 := t_extract_close key_cmp key_size val_size true false 64%N ex_sep entry_eqb x in
-  List.map (option_map fst) os = [Some (KU64 3); Some (KU64 5); Some (KU64 7); Some (KU64 9); Some (KU64 11)] /\
-  tree_checkb key_cmp bt1 = true /\ tlen bt1 = 15%N /\ tget key_cmp bt1 (KU64 7) = None /\ tget key_cmp bt1 (KU64 13) <> None.
+  List.map (option_map fst) os = [Some (KU64 3); Some (KU64 5); Some (KU64 7); Some (KU64 11); Some (KU64 13)] /\
+  tree_checkb key_cmp bt1 = true /\ tlen bt1 = 15%N /\ tget key_cmp bt1 (KU64 7) = None /\ tget key_cmp bt1 (KU64 15) <> None.
 Proof. vm_compute. repeat split; try reflexivity. discriminate. Qed.
 
 Definition ex_pred (k : key) (v : bytes) : bool := match k with KU64 n => N.even n | _ => true end.
